@@ -104,16 +104,22 @@ class C05(F.PropCheck):
         return None
 
     def keepalive(self, case, outs, msgs, conns, J):
-        """the harness marks a case as a keep-alive scenario with the tag 'keepalive:<conn>': the generator guarantees a healthy link, a
-        prompt responder and no disturbing events from the registration on; the monitor re-checks those premises on the trace"""
+        """keep-alive clause; evaluated only on cases whose events make its premises true (prompt responder, healthy link)"""
         v = []; c = K(); evs = case.evs
-        if not any(t.startswith('keepalive') for t in case.tags): return v
-        # premises: no SENTMODE/SENTRES/DISCCB/WIFI events after the first CONNCB, responder delay < 1 s all the time, no refusal
-        seen_conn = False
+        boot = evs[0][1][0] if evs and evs[0][0] == 'CFG' and evs[0][1] else 0
+        # premises (from the events of the case): the responder is on with a delay < 1 s from before the connection on and is never changed to
+        # something slower; healthy link: no SENTMODE/SENTRES/DISCCB/WIFI events after the first CONNCB; no refusal (checked below)
+        seen_conn = False; responder = False
         for (k, ints, _) in evs:
-            if k == 'CONNCB': seen_conn = True
-            if seen_conn and k in ('SENTMODE', 'SENTRES', 'DISCCB', 'WIFI'): return v
-            if k == 'SERVER' and not (0 <= ints[0] < S): return v
+            if k == 'CONNCB':
+                if not responder: return v
+                seen_conn = True
+            if k in ('SENTMODE', 'SENTRES') and any(x != 0 for x in ints): return v
+            if seen_conn and k in ('DISCCB', 'WIFI'): return v
+            if k == 'SERVER':
+                if not (0 <= ints[0] < S): return v
+                responder = True
+        if not seen_conn: return v
         st = None; tok = None
         for (t, n, call, pay) in msgs:
             if call == c['SRV_REGISTER_RESULT'] and len(pay) == c['SZ_REGISTER_RESULT']:
@@ -131,7 +137,8 @@ class C05(F.PropCheck):
         # (1) never reconnects or restarts
         for (k, ints, _) in outs:
             if k in ('DISCONNECT', 'WIFISTART', 'RESTART') and ints[0] > tok:
-                v.append('keep-alive: %s at %d us although registered (timeout %d s) and every ping was answered promptly' % (k, ints[0], T)); break
+                msg = 'keep-alive: %s at %d us although registered (timeout %d s) and every ping was answered promptly' % (k, ints[0], T)
+                v.append(msg + self.starved(outs, cn, T, J, deliveries, ints[0], boot)); break
         # (2) a frame in every window of T seconds (from the registration answer on)
         sends = sorted(ints[0] for (k, ints, _) in outs if k == 'WIRE' and ints[1] == cn and ints[0] >= tok)
         prev = tok
@@ -140,6 +147,26 @@ class C05(F.PropCheck):
                 v.append('keep-alive: no frame on the wire between %d and %d us (timeout %d s)' % (prev, t, T)); break
             prev = t
         return v
+
+    def starved(self, outs, cn, T, J, deliveries, t_d, boot=0):
+        """signature of the known finding: after the last response no ping reached the wire, and at every timer1 tick of the ping window
+        the 2-slot out queue was full (two other frames reach the wire in the two iterates, 200 ms, that follow the tick)"""
+        c = K()
+        if J != 0: return ''
+        r = max([t for t in deliveries if t < t_d] or [0])
+        wires = [(ints[0], ints[2]) for (k, ints, _) in outs if k == 'WIRE' and ints[1] == cn]
+        if any(call == c['CALL_PING'] and r < t <= t_d for (t, call) in wires): return ''
+        tw = max([ints[0] for (k, ints, _) in outs if k == 'WIFISTART' and ints[0] < t_d] or [0])
+        sec = lambda t: (boot + t) // S
+        M = c['PING_WINDOW_MINUS']
+        ticks = [x for x in range(tw + S, t_d, S) if T - M <= sec(x) - sec(r) <= T]
+        if len(ticks) < M: return ''
+        for x in ticks:
+            if sum(1 for (t, call) in wires if x <= t <= x + 200000 and call != c['CALL_PING']) < 2: return ''
+        return ' [ping starved: no ping reached the wire after the last response at %d us; the out queue was full at all %d timer1 ticks of the ping window]' % (r, len(ticks))
+    def finding_key(self, case, what):
+        if 'keep-alive' in what and '[ping starved:' in what: return 'ping-starved-by-full-out-queue'
+        return None
 
     # ---------------- generators
     def up_and_register(self, rng, T, grant=None, first_adv=None):
